@@ -1,9 +1,191 @@
 import Driver.Util
+import MpcVerif.Model.Gmw
 
 namespace Drv.C10
+open Mpc Mpc.Gmw Drv
 
-/-- Line-protocol handler of property C10 (stub). -/
-def handle (_args : List String) : String := "bad-op"
+def hexVal (c : Char) : Option Nat :=
+  if '0' ≤ c ∧ c ≤ '9' then some (c.toNat - '0'.toNat)
+  else if 'a' ≤ c ∧ c ≤ 'f' then some (c.toNat - 'a'.toNat + 10)
+  else none
+
+/-- `-` or a concatenation of 16-digit hex words. -/
+def parseWords (s : String) : Option Words :=
+  if s == "-" then some #[] else
+  let cs := s.toList
+  if cs.length % 16 != 0 then none else
+  let rec go (cs : List Char) (cur : Nat) (k : Nat) (acc : Words) : Option Words :=
+    match cs with
+    | [] => some acc
+    | c :: rest =>
+      match hexVal c with
+      | none => none
+      | some v =>
+        let cur := cur * 16 + v
+        if k == 15 then go rest 0 0 (acc.push (BitVec.ofNat 64 cur)) else go rest cur (k + 1) acc
+  go cs 0 0 #[]
+
+def hexDigit (n : Nat) : Char :=
+  if n < 10 then Char.ofNat ('0'.toNat + n) else Char.ofNat ('a'.toNat + n - 10)
+
+def wordHex (w : Word) : String :=
+  String.ofList ((List.range 16).map fun i => hexDigit ((w.toNat >>> (4 * (15 - i))) % 16))
+
+def wordsHex (v : Words) (n : Nat) : String :=
+  if n == 0 then "-" else String.join ((List.range n).map fun i => wordHex (wget v i))
+
+def parseState (s : String) : Option Triples :=
+  match s.splitOn ":" with
+  | [w, a, b, c] => do
+    some { words := ← w.toNat?, a := ← parseWords a, b := ← parseWords b, c := ← parseWords c }
+  | _ => none
+
+def stateStr (t : Triples) : String :=
+  s!"{t.words}:{wordsHex t.a t.a.size}:{wordsHex t.b t.b.size}:{wordsHex t.c t.c.size}"
+
+def viewStr (t : Triples) : String :=
+  s!"{t.words}:{wordsHex t.a t.words}:{wordsHex t.b t.words}:{wordsHex t.c t.words}"
+
+def natOfBits (b : List Bool) : Nat :=
+  b.foldr (fun x acc => (if x then 1 else 0) + 2 * acc) 0
+
+def storeStr (w : Store Bool) : String :=
+  if w.size == 0 then "-" else String.ofList (w.toList.map fun x => if x then '1' else '0')
+
+/-- Level digest as printed by the harness: `max/Σ level_i * (i % 65521 + 1) mod 4294967291`. -/
+def levelDigest (c : Circuit) : String :=
+  let lv := c.assignLevels true
+  let s := (lv.1.zipIdx).foldl (fun acc li => (acc + li.1 * (li.2 % 65521 + 1)) % 4294967291) 0
+  s!"{lv.2}/{s}"
+
+/-! ### pool event sequences -/
+
+inductive Ev where
+  | arrive (b : Triples)
+  | clear
+  | get (count : Nat)
+
+def parseBatch (s : String) : Option Triples :=
+  match s.splitOn "/" with
+  | [a, b, c] => do
+    let a ← parseWords a
+    some { words := a.size, a := a, b := ← parseWords b, c := ← parseWords c }
+  | _ => none
+
+def parseEv (s : String) : Option Ev :=
+  match s.toList with
+  | 'A' :: rest => (parseBatch (String.ofList rest)).map .arrive
+  | ['C'] => some .clear
+  | 'G' :: rest => (String.ofList rest).toNat?.map .get
+  | _ => none
+
+/-- Take the arrivals that directly follow a `Get` until `need` words are
+available; each becomes one tick of the schedule. -/
+def pullArrivals : List Ev → Nat → Nat → List (List Triples) × List Ev
+  | .arrive b :: rest, have_, need =>
+    if have_ < need then
+      let r := pullArrivals rest (have_ + b.words) need
+      ([b] :: r.1, r.2)
+    else ([], .arrive b :: rest)
+  | evs, _, _ => ([], evs)
+
+def runEvents : Nat → List Ev → Triples → Triples → List String → List String
+  | 0, _, _, _, acc => acc.reverse ++ ["fuel"]
+  | _, [], pool, _, acc => (("pool=" ++ viewStr pool) :: acc).reverse
+  | fuel + 1, .arrive b :: rest, pool, dst, acc => runEvents fuel rest (poolArrive pool b) dst acc
+  | fuel + 1, .clear :: rest, pool, dst, acc => runEvents fuel rest pool dst.clear acc
+  | fuel + 1, .get count :: rest, pool, dst, acc =>
+    let need := (count + 63) / 64
+    let (ticks, rest') := pullArrivals rest pool.words need
+    match poolGet count ([] :: ticks ++ [[]]) 0 pool dst with
+    | none => acc.reverse ++ ["blocked"]
+    | some (pool', dst', _) => runEvents fuel rest' pool' dst' (("g=" ++ stateStr dst') :: acc)
+
+/-! ### handlers -/
+
+def splitC (s : String) : List String := s.splitOn ","
+
+def handleRun (sizes nw nin nout gates xs rnd pools : String) : String :=
+  match parseCircuit nw nin nout gates, (splitC sizes).mapM String.toNat? with
+  | some c, some sizes =>
+    let n := sizes.length
+    let xsL := (splitC xs).map fun s => natOfBits (parseBits s)
+    let rndL := ((splitC rnd).map fun s => natOfBits (parseBits s)).toArray
+    match (splitC pools).mapM parseState' with
+    | none => "bad-op"
+    | some pl =>
+      if xsL.length != n || rndL.size != n * n || pl.length != n then "bad-op" else
+      let x := fun p => xsL.getD p 0
+      let r := fun p q => rndL.getD (p * n + q) 0
+      let pools := fun p => pl.getD p Triples.empty
+      match run c sizes x r pools with
+      | .unsupported => "unsupported"
+      | .blocked => "blocked"
+      | .ok ps outs =>
+        let used := ",".intercalate (ps.map fun p => toString ((pools p.id).words - p.pool.words))
+        let ws := ",".intercalate (ps.map fun p => storeStr p.wires)
+        let os := ",".intercalate (outs.map bitsStr)
+        s!"lv={levelDigest c};used={used};w={ws};o={os}"
+  | _, _ => "bad-op"
+where
+  parseState' (s : String) : Option Triples :=
+    match s.splitOn ":" with
+    | [a, b, c] => do
+      let a ← parseWords a
+      some { words := a.size, a := a, b := ← parseWords b, c := ← parseWords c }
+    | _ => none
+
+def handleTb (n words as bs ss rs ds : String) : String :=
+  match n.toNat?, words.toNat?, (splitC as).mapM parseWords, (splitC bs).mapM parseWords,
+      (splitC ss).mapM parseWords, (splitC rs).mapM parseWords with
+  | some n, some words, some a, some b, some s, some r =>
+    let d := ds.toList.toArray
+    if a.length != n || b.length != n || s.length != n * n || r.length != n * n || d.size != n * n then "bad-op" else
+    let sA := s.toArray
+    let rA := r.toArray
+    let I : BatchIn :=
+      { a := fun p => a.getD p #[], b := fun p => b.getD p #[]
+        s := fun p q => sA.getD (p * n + q) #[], r := fun p q => rA.getD (p * n + q) #[]
+        delta := fun p q => d.getD (p * n + q) '0' == '1' }
+    ",".intercalate ((List.range n).map fun p => wordsHex (tripleBatch n words I p).c words)
+  | _, _, _, _, _, _ => "bad-op"
+
+def handle (args : List String) : String :=
+  match args with
+  | ["run", sizes, nw, nin, nout, gates, xs, rnd, pools] => handleRun sizes nw nin nout gates xs rnd pools
+  | ["tb", n, words, as, bs, ss, rs, ds] => handleTb n words as bs ss rs ds
+  | ["app", dst, src, n] =>
+    match parseState dst, parseState src, n.toNat? with
+    | some dst, some src, some n =>
+      if ¬ (dst.WF ∧ src.WF) then "panic" else
+      let r := dst.append src n
+      s!"ret={r.2.2};dst={stateStr r.1};src={stateStr r.2.1}"
+    | _, _, _ => "bad-op"
+  | ["pool", evs] =>
+    match (splitC evs).mapM parseEv with
+    | some evs => ";".intercalate (runEvents (evs.length + 1) evs Triples.empty Triples.empty [])
+    | none => "bad-op"
+  | ["bit", v, i] =>
+    match parseWords v, i.toNat? with
+    | some v, some i => if bit v i then "1" else "0"
+    | _, _ => "bad-op"
+  | ["setbit", v, i, b] =>
+    match parseWords v, i.toNat? with
+    | some v, some i => let w := setBit v i (b == "1"); wordsHex w w.size
+    | _, _ => "bad-op"
+  | ["xorv", r, v] =>
+    match parseWords r, parseWords v with
+    | some r, some v => if v.size > r.size then "panic" else let w := xorBitvec r v; wordsHex w w.size
+    | _, _ => "bad-op"
+  | ["exp", v, k] =>
+    match parseWords v, k.toNat? with
+    | some v, some k => let w := expand v k; wordsHex w w.size
+    | _, _ => "bad-op"
+  | ["expclr", v, k] =>
+    match parseWords v, k.toNat? with
+    | some v, some k => let w := expandClear v k; wordsHex w w.size
+    | _, _ => "bad-op"
+  | _ => "bad-op"
 
 end Drv.C10
 
